@@ -4,6 +4,9 @@ import SC.Proofs.RIndex
 import SC.Proofs.RCountByte
 import SC.Proofs.RLastIndex
 import SC.Proofs.RIndexAny6
+import SC.Proofs.RByteLevel
+import SC.Proofs.RTrim
+import SC.Proofs.RSuffix
 /-!
 # C06 — total and memory-safe on arbitrary bytes
 
@@ -80,6 +83,66 @@ theorem lastIndexAny_total (cfg : A.Cfg) (s cs : Bytes) :
   rw [A.LastIndexAny_eq]
   have := spec_lastIndexAny_in_range s cs
   refine ⟨?_, ?_, this.1, this.2⟩ <;> simp only [A.fault, A.nofuel] <;> omega
+
+/-- a slice `(offset, length)` lies inside a string of length `n` -/
+def InRange (n : Nat) (p : S.Slice) : Prop := p.1 + p.2 ≤ n
+
+/-- every slice the Trim/Cut family of the specification returns is a sub-slice of `s` -/
+theorem spec_slices_in_range (s t : Bytes) :
+    InRange s.length (S.trimPrefix s t) ∧ InRange s.length (S.cutPrefix s t).1 ∧
+    InRange s.length (S.trimSuffix s t) ∧ InRange s.length (S.cutSuffix s t).1 ∧
+    InRange s.length (S.cut s t).1 ∧ InRange s.length (S.cut s t).2.1 := by
+  unfold InRange
+  refine ⟨?_, ?_, ?_, ?_, ?_, ?_⟩
+  · unfold S.trimPrefix S.prefixLen
+    split <;> rename_i h
+    · split at h
+      · cases h; have := offAt_le s (S.nrunes t); simp only []; omega
+      · cases h
+    · simp
+  · unfold S.cutPrefix S.prefixLen
+    split <;> rename_i h
+    · split at h
+      · cases h; have := offAt_le s (S.nrunes t); simp only []; omega
+      · cases h
+    · simp
+  · unfold S.trimSuffix S.suffixStart
+    simp only []
+    split <;> rename_i h
+    · split at h
+      · cases h; have := offAt_le s ((S.fruns s).length - (S.fruns t).length); simp only []; omega
+      · cases h
+    · simp
+  · unfold S.cutSuffix S.suffixStart
+    simp only []
+    split <;> rename_i h
+    · split at h
+      · cases h; have := offAt_le s ((S.fruns s).length - (S.fruns t).length); simp only []; omega
+      · cases h
+    · simp
+  · unfold S.cut
+    split
+    · rename_i k _; have := offAt_le s k; simp only []; omega
+    · simp
+  · unfold S.cut
+    split
+    · rename_i k _; have := offAt_le s (k + S.nrunes t); simp only []; omega
+    · simp
+
+/-- the same for the algorithm model: no Trim/Cut function returns a slice outside `s` (and `Cut` returns at all) -/
+theorem slices_in_range (cfg : A.Cfg) (s t : Bytes) :
+    InRange s.length (A.TrimPrefix cfg s t) ∧ InRange s.length (A.CutPrefix cfg s t).1 ∧
+    InRange s.length (A.TrimSuffix cfg s t) ∧ InRange s.length (A.CutSuffix cfg s t).1 ∧
+    (∃ r, A.Cut cfg s t = some r ∧ InRange s.length r.1 ∧ InRange s.length r.2.1) := by
+  have h := spec_slices_in_range s t
+  rw [A.TrimPrefix_eq, A.CutPrefix_eq, A.TrimSuffix_eq, A.CutSuffix_eq, A.Cut_eq]
+  exact ⟨h.1, h.2.1, h.2.2.1, h.2.2.2.1, _, rfl, h.2.2.2.2.1, h.2.2.2.2.2⟩
+
+/-- the byte searches stay in range as well -/
+theorem byte_searches_total (cfg : A.Cfg) (s : Bytes) (c : UInt8) :
+    A.IndexByte cfg s c = S.indexByte s c ∧ A.LastIndexByte cfg s c = S.lastIndexByte s c ∧
+    A.IndexByteASCII cfg s c = S.indexByteASCII s c :=
+  ⟨A.IndexByte_eq cfg s c, A.LastIndexByte_eq cfg s c, A.IndexByteASCII_eq cfg s c⟩
 
 example : A.Count {} [0xFF, 0xFF] [0xFF, 0xFF] = 1 ∧ A.Count {pkg := .byt} [0xFF, 0xFF] [0xFF, 0xFF] = 1 := by decide +kernel
 end C06
